@@ -4,6 +4,14 @@ from lib.mir import AnalysisError, fmt_origin, erase_generics
 
 HM_GET = "std::collections::HashMap::<K, V, S, A>::get"
 HM_INSERT = "std::collections::HashMap::<K, V, S, A>::insert"
+HM_CONTAINS = "std::collections::HashMap::<K, V, S, A>::contains_key"
+
+
+def lookup_edges(f, g, hit):
+    """Edges on which the map lookup `g` (get / contains_key) found (hit) or missed the key."""
+    if erase_generics(g.path).endswith("contains_key") or g.name == "contains_key":
+        return f.bool_edges_of_call(g, hit)
+    return f.edges_of_call_variant(g, "Some" if hit else "None")
 HS_INSERT = "std::collections::HashSet::<T, S, A>::insert"
 HS_REMOVE = "std::collections::HashSet::<T, S, A>::remove"
 HS_CONTAINS = "std::collections::HashSet::<T, S, A>::contains"
@@ -36,8 +44,15 @@ def c12_r1(ctx):
     fns = {f.id: f for f, _ in sites}
     for f in fns.values():
         ctx.saw(f)
+        # no rule may be discarded from the input before the check
+        for c2 in f.calls:
+            if c2.args and c2.name in ("dedup", "dedup_by", "dedup_by_key", "retain", "retain_mut", "truncate", "clear", "pop", "remove", "swap_remove", "split_off") \
+                    and erase_generics(c2.path).startswith(("std::vec::Vec::", "core::slice::", "std::slice::")):
+                ao = f.origins_of_operand(c2.args[0])
+                if ao and all(o[0][0] == "param" and not any(st[0] in ("field", "next") for st in o[1:]) for o in ao):
+                    ctx.viol((f.id, "rules-discarded-before-check", c2.name), "`%s` can drop rules from the input before the duplicate-target check: a path that is the target of two rules would be accepted" % c2.name, c2.where)
         ins = f.calls_to(HM_INSERT)
-        gets = f.calls_to(HM_GET)
+        gets = f.calls_to(HM_GET) + f.calls_to(HM_CONTAINS)
         ctx.need(ins and gets, "HashMap get/insert in %s" % f.id)
         for i in ins:
             ctx.inst("target map insert", i.where)
@@ -45,12 +60,12 @@ def c12_r1(ctx):
             for g in gets:
                 if f.vars_of_operand(g.args[0]) == f.vars_of_operand(i.args[0]) and \
                         f.origins_of_operand(g.args[1]) == f.origins_of_operand(i.args[1]) and \
-                        f.dominated_by_edges(i.bb, f.edges_of_call_variant(g, "None")):
+                        f.dominated_by_edges(i.bb, lookup_edges(f, g, False)):
                     guard = g
             if guard is None:
                 ctx.viol((f.id, "duplicate-target-unchecked"), "a target is entered into the target map without a miss on the same key: a path that is the target of two rules would be accepted", i.where)
                 continue
-            some = f.edges_of_call_variant(guard, "Some")
+            some = lookup_edges(f, guard, True)
             errs = [(bb, idx) for (bb, idx, rv, pl) in f.constructs(ERR, "TargetInMultipleRules") if f.dominated_by_edges(bb, some)]
             r = f.reach([x for (_, x) in some])
             lps = [lp for lp in f.loops() if guard.bb in lp["body"]]
